@@ -622,6 +622,11 @@ def iod_checks(ctx: Ctx, sink: Sink, I: Impl, arcs: list, rng: random.Random):
         inc, raan, argp, nu = math.acos(rng.uniform(-1, 1)), rng.uniform(0, O.TWOPI), rng.uniform(0, O.TWOPI), rng.uniform(0, O.TWOPI)
         period = O.TWOPI * math.sqrt(sma ** 3 / I.mu)
         frac = rng.choice((rng.uniform(0.02, 0.35), rng.uniform(0.02, 0.35), rng.uniform(0.355, 0.399)))
+        if k % 10 == 9:
+            # high orbits whose periods are several days: observations MORE THAN A DAY apart are still less than 40 % of a
+            # period apart (seed C20/12: whole days of the time of flight dropped)
+            sma, frac = rng.uniform(100000.0, 250000.0), rng.uniform(0.30, 0.399)
+            period = O.TWOPI * math.sqrt(sma ** 3 / I.mu)
         x1 = O.kep2cart(sma, ecc, inc, raan, argp, nu, I.mu)
 
         def states(tof, x1=x1):
